@@ -76,7 +76,10 @@ CONTRACTS.append(Contract(
         ('values-of-the-created-map', ForAll([x], Implies(
             z3.Contains(c.res, z3.Unit(x)),
             z3.Exists([z3.Const('bd!k', StrS)],
-                      c.old(CM, c.self)[z3.Const('bd!k', StrS)] == OCM.some(x)))))],
+                      c.old(CM, c.self)[z3.Const('bd!k', StrS)] == OCM.some(x))))),
+        ('every-value-of-the-created-map', ForAll([x], Implies(
+            OCM.is_some(c.old(CM, c.self)[x]),
+            z3.Contains(c.res, z3.Unit(OCM.val(c.old(CM, c.self)[x]))))), ['C02', 'C03'])],
     modifies=lambda c: []))
 CONTRACTS.append(Contract(
     M + 'norm_cased_error_created_dirs', props=['C12', 'C02', 'C03', 'C10'], params={'self': BD},
